@@ -106,14 +106,14 @@ theorem d3Safe_of_2W {c : Cfg} (hc : RValid c) (h2 : c.S = 2 * c.W) {st : St}
 /-- **C11 (conditional form, any `State` width)**: if the final reference state is `D3Safe`,
     the sealed words followed by an arbitrary suffix decode to exactly the message. -/
 theorem suffix_immune_of_safe {Sym : Type} {c : Cfg} (hc : RValid c) (msg : List (MStep Sym))
-    (hv : ∀ x ∈ msg, x.Valid c)
+    (hn : MsgFits c msg.length) (hv : ∀ x ∈ msg, x.Valid c)
     (hsafe : D3Safe c (run c.W c.S (RangeSpec.init c.S) (msg.map MStep.spec)))
     (suffix : List Nat) (hs : WordsOK c suffix) :
     ∃ e ws d0 d, encodeMsg c (Encoder.empty c) msg = .ok e ∧
       intoCompressed c e = .ok ws ∧
       Decoder.fromCompressed c (ws ++ suffix) = .ok d0 ∧
       decodeMsg c d0 msg = .ok (msg.map (·.sym), d) := by
-  obtain ⟨e, he, hI, hws⟩ := words_eq_spec hc msg hv
+  obtain ⟨e, he, hI, _, hws⟩ := words_eq_spec hc msg hn hv
   have hwok : WordsOK c (RangeSpec.words c.W c.S (msg.map MStep.spec) ++ suffix) :=
     (words_spec_wordsOK c _).append hs
   obtain ⟨d0, hd0, hrel0⟩ := fromCompressed_eq hc hwok
@@ -132,13 +132,13 @@ theorem suffix_immune_of_safe {Sym : Type} {c : Cfg} (hc : RValid c) (msg : List
 
 /-- **C11 for `State = 2·Word`** (both presets): unconditional. -/
 theorem suffix_immune_2W {Sym : Type} {c : Cfg} (hc : RValid c) (h2 : c.S = 2 * c.W)
-    (msg : List (MStep Sym)) (hv : ∀ x ∈ msg, x.Valid c)
+    (msg : List (MStep Sym)) (hn : MsgFits c msg.length) (hv : ∀ x ∈ msg, x.Valid c)
     (suffix : List Nat) (hs : WordsOK c suffix) :
     ∃ e ws d0 d, encodeMsg c (Encoder.empty c) msg = .ok e ∧
       intoCompressed c e = .ok ws ∧
       Decoder.fromCompressed c (ws ++ suffix) = .ok d0 ∧
       decodeMsg c d0 msg = .ok (msg.map (·.sym), d) :=
-  suffix_immune_of_safe hc msg hv
+  suffix_immune_of_safe hc msg hn hv
     (d3Safe_of_2W hc h2 (specInv_run _ _ (specInv_init hc) hv)) suffix hs
 
 end CV.Range
